@@ -77,6 +77,16 @@ var entries = map[string]entry{
 		_, _, a, err := p.ParseSourceBytes(src, "in.mro", nil, false)
 		return a != nil, err
 	}},
+	// compile as mro check and mrp do: the call graph of the top call is built from an
+	// accepted tree (an error of that step is not judged, only that it returns)
+	"callgraph": {"ParseSourceBytes+MakeCallGraph", func(p *syntax.Parser, src []byte) (bool, error) {
+		_, _, a, err := p.ParseSourceBytes(src, "in.mro", nil, false)
+		if err != nil || a == nil || a.Call == nil {
+			return a != nil, err
+		}
+		a.MakeCallGraph("", a.Call)
+		return true, nil
+	}},
 	// several files: src is {"files": {name: text}, "top": name}; the top file is compiled
 	// with its directory on the include path, then formatted
 	"graph": {"ParseSourceBytes(include graph)", func(p *syntax.Parser, src []byte) (bool, error) {
